@@ -392,7 +392,43 @@ def k_background(ctx):
         ctx.violation("load_pcDelta_background:return_bins-false", "return_bins=False did not return the table alone", only.describe(), None)
 
 
-KINDS = {"hist": k_hist, "bins0": k_bins0, "table": k_table, "maxseqs": k_maxseqs, "background": k_background}
+def k_hist_big(ctx, n, n2, np_seed):
+    """Thousands of elements drawn from a dozen distinct strings: the exact histogram follows from the distances between the distinct
+    strings and their multiplicities (sizes just beyond a power of two: block boundaries)."""
+    import numpy as np
+    import pyrepseq as prs
+    rng = random.Random(np_seed)
+    distinct = ["CASSF", "CASF", "CAWF", "CASSLF", "CDDDDDF", "CAW", "CDDDDF", "CASSFF", "C", "CASSLGQF", "CAWWF", "CDF"]
+    seqs = [rng.choice(distinct) for _ in range(n)]
+    seqs2 = [rng.choice(distinct[:7]) for _ in range(n2)] if n2 else None
+    edges = list(range(0, 9))
+    ca = collections.Counter(seqs)
+    h = [0] * (len(edges) - 1)
+
+    def add(d, w):
+        for b in range(len(edges) - 1):
+            if edges[b] <= d < edges[b + 1] or (b == len(edges) - 2 and d == edges[-1]):
+                h[b] += w
+    if seqs2 is None:
+        keys = sorted(ca)
+        for i, a in enumerate(keys):
+            add(0, ca[a] * (ca[a] - 1) // 2)
+            for b in keys[i + 1:]:
+                add(O.lev(a, b), ca[a] * ca[b])
+    else:
+        cb = collections.Counter(seqs2)
+        for a in ca:
+            for b in cb:
+                add(O.lev(a, b), ca[a] * cb[b])
+    ctx.count("hist_big_cases")
+    ctx.nontriv(["hbig", n, n2, np_seed])
+    ctx.sample("hist_big", {"n": n, "n2": n2, "expected": h})
+    out = ctx.call(prs.pcDelta, list(seqs), (list(seqs2) if seqs2 is not None else None), bins=np.array(edges), normalize=False)
+    if not out.ok or not _same(out.value, [float(x) for x in h]):
+        ctx.violation(f"pcDelta:{'two' if n2 else 'one'}:big:wrong-histogram", f"pcDelta on {n} elements differs from the exact pair histogram", out.describe(), h)
+
+
+KINDS = {"hist_big": k_hist_big, "hist": k_hist, "bins0": k_bins0, "table": k_table, "maxseqs": k_maxseqs, "background": k_background}
 
 BINS = [None, [0, 1, 2, 3, 4], [0, 1, 2, 5, 9], [0, 2], [0, 1], [1, 3, 4], [0.0, 0.5, 1.0, 1.75, 3.0], [0, 0.25, 0.5], [0, 1, 2, 3, 4, 5, 6, 7, 8, 9, 10, 11, 12, 40]]
 
@@ -449,6 +485,15 @@ def generate(tier, seed):
             p["seqs2"] = ["CASF", "W" * 290]
         yield "hist", p, True
     # tables
+    # sizes just beyond a power of two
+    for j, (n, n2) in enumerate([(2049, 0), (1025, 2049)] if not thorough else [(2049, 0), (4097, 0), (2050, 0), (1025, 2049), (4097, 513), (8193, 0)]):
+        yield "hist_big", {"n": n, "n2": n2, "np_seed": 5500 + seed + j}, True
+    # paired tables whose chains are each at most 255 letters while alpha + beta distances exceed 255
+    for j in range(4 if thorough else 2):
+        rows = [[G.rand_string(rng, ["ACDEF", "GHIKL", "MNPQR"][r % 3], 135, 200), G.rand_string(rng, ["STVWY", "ACDEF", "GHIKL"][r % 3], 135, 200)] for r in range(5)]
+        rows[1] = [G.mutate(rng, rows[0][0], "ACDEF", 4), G.mutate(rng, rows[0][1], "STVWY", 5)]
+        yield "table", {"rows": rows, "cols": "AB", "bins": [0, 10, 200, 256, 300, 400, 600], "normalize": False, "index": [None, "string"][j % 2],
+                        "rows2": rows[:3] if j % 2 else None}, True
     cells = ["CAF", "CAAF", "CAW", "CF", "CASF", "CAAAF", ""]
     n_tab = 1500 * TS if thorough else 70
     for i in range(n_tab):
